@@ -58,6 +58,7 @@ _GENERIC = ("a particular interleaving, a crash or fault at a particular point, 
             "routine test run would not touch.")
 FLAVOUR["d"] = {("C%02d" % i): _GENERIC for i in range(1, 21)}
 FLAVOUR["e"] = {("C%02d" % i): _GENERIC + " Avoid the most obvious spot: look for a second, less travelled place in the code where the property can be broken." for i in range(1, 21)}
+FLAVOUR["f"] = {("C%02d" % i): _GENERIC + " Avoid the obvious spots (the central decision function of the property, the parser's main loop, the store's lookup): look at the glue instead - how values are handed from one layer to the next (identifiers, names, serial numbers, locations, configuration plumbing, serialisation, error values that are translated or swallowed, clean-up and shutdown paths, retries, what happens on the second and third use of an object)." for i in range(1, 21)}
 
 
 def main():
